@@ -98,4 +98,30 @@ def optionTable : List (String × List String) :=
    ("MustCreate", ["own.mergeFn:return ErrLayerAlreadyExists"]),
    ("WithTags", ["own.tags=append(own.tags,arg0...)"])]
 
+/-- the option constructor that installs a merge function -/
+def MergeFn.ctor : MergeFn → Option String
+  | .none => Option.none
+  | .mergeTags => some "MergeTags"
+  | .mustCreate => some "MustCreate"
+
+/-- the closure an option constructor stores in `own.mergeFn`, RUN FROM its statement list: own context
+    and existing context (`other`) ↦ own context afterwards, and whether an error is returned -/
+def mergeFnBy {δ : Type} (steps : List String) (own other : Ctx δ) : Ctx δ × Bool :=
+  let tags := if steps.contains "own.mergeFn:own.tags=utils.Unique(append(own.tags,other.tags...))"
+    then unique (own.tags ++ other.tags) else own.tags
+  let doc := if steps.contains "own.mergeFn:if own.doc==nil{own.doc=other.doc}"
+    then (match own.doc with
+          | none => other.doc
+          | some d => some d)
+    else own.doc
+  ({ own with tags := tags, doc := doc }, steps.contains "own.mergeFn:return ErrLayerAlreadyExists")
+
+/-- re-adding an existing name with a merge function, driven by an option table: run the closure of the
+    constructor that installed it; an error leaves the set alone, otherwise the context replaces the
+    stored one -/
+def reAddBy {δ : Type} (opts : List (String × List String)) (s : State δ) (name : String) (newCtx ex : Ctx δ)
+    (ctor : String) : State δ × Bool :=
+  let r := mergeFnBy ((opts.lookup ctor).getD []) newCtx ex
+  if r.2 then (s, true) else ({ s with ctxMap := AMap.insert s.ctxMap name r.1 }, false)
+
 end Ytk.DocSet
